@@ -462,10 +462,11 @@ class ChunkedDataDict(GenericEquality):
             obj._dict = self._dict
             obj._global_settings = self._global_settings
             return obj
-        obj._dict = defaultdict(partial(list, self._global_settings))
-        for key, values in self._dict.items():
-            obj._dict[key].extend(values)
+        # new keys of the clone start from the clone's globals, not from ours
         obj._global_settings = list(self._global_settings)
+        obj._dict = defaultdict(partial(list, obj._global_settings))
+        for key, values in self._dict.items():
+            obj._dict[key] = list(values)
         return obj
 
     def mk_item(self, key, neg, pos):
@@ -536,14 +537,8 @@ class ChunkedDataDict(GenericEquality):
         for cinst in stream:
             if getattr(cinst.key, "key", None) is not None:
                 # atom, or something similar.  use the key lookup.
-                # hack also... recreate the restriction; this is due to
-                # internal idiocy in ChunkedDataDict that will be fixed.
-                new_globals = (
-                    x
-                    for x in self._global_settings
-                    if x not in self._dict[cinst.key.key]
-                )
-                self._dict[cinst.key.key].extend(new_globals)
+                # every per-key list already carries all globals in their place: a new
+                # list starts as a copy of them, and add_global/merge append to all lists.
                 self._dict[cinst.key.key].append(cinst)
             else:
                 self.add_global(cinst)
